@@ -82,6 +82,49 @@ def describe(rec, limit=40):
     return {"entry": rec.entry, "trace": out, "final": [rec.final[0], repr(rec.final[1])[:200]]}
 
 
+class Collector:
+    """Minimal stand-in for Ctx when a slice-specific judge is re-run by --replay."""
+
+    def __init__(self, prop="C00", seed=0):
+        import collections
+
+        self.cnt = collections.Counter()
+        self.prop, self.seed, self.shard, self.nshards = prop, seed, 0, 1
+        self.found = []
+
+    def inc(self, k, n=1):
+        self.cnt[k] += n
+
+    def viol(self, key, msg, payload):
+        self.found.append((key, msg))
+
+    def add(self, *a):
+        pass
+
+    def add_hash(self, *a):
+        pass
+
+    def cell(self, *a):
+        pass
+
+    def mx(self, *a):
+        pass
+
+    def sample(self, *a):
+        pass
+
+
+def replay_with(data, judge):
+    """--replay for violations reported by a slice-specific judge(ctx, scenario, entry)."""
+    p = data["payload"]
+    c = Collector()
+    judge(c, p["scenario"], p["entry"])
+    for k, m in c.found:
+        print(f"  !! [{k}] {m}")
+    print("replay:", "violation reproduced" if c.found else "no violation on this tree")
+    return 1 if c.found else 0
+
+
 def replay_trace(data, oracle_list, *, manual=True):
     """Generic --replay: re-run the stored scenario through the stored entry verbosely."""
     p = data["payload"]
